@@ -4,6 +4,7 @@ import base64
 from enum import Enum
 from typing import Any, Final, Self
 
+from cryptography.exceptions import InvalidSignature
 from cryptography.hazmat.primitives.asymmetric import ec
 from cryptography.hazmat.primitives.asymmetric.utils import encode_dss_signature
 from cryptography.hazmat.primitives.hashes import SHA256, SHA384
@@ -81,7 +82,15 @@ class KSKM_PublicKey_ECDSA(KSKM_PublicKey):
         pubkey = self.to_cryptography_pubkey()
         # OpenSSL (which is at the bottom of 'cryptography' expects ECDSA signatures to
         # be in RFC3279 format (ASN.1 encoded).
-        _r, _s = signature[: len(signature) // 2], signature[len(signature) // 2 :]
+        # RFC 6605 section 4: the signature is r | s, each integer encoded in exactly as many
+        # octets as the field size of the curve (32 for P-256, 48 for P-384). Anything else is
+        # not an ECDSA RRSIG signature, even if it would split into the same two integers.
+        _size = (pubkey.curve.key_size + 7) // 8
+        if len(signature) != 2 * _size:
+            raise InvalidSignature(
+                f"ECDSA signature is {len(signature)} octets, expected {2 * _size}"
+            )
+        _r, _s = signature[:_size], signature[_size:]
         r = int.from_bytes(_r, byteorder="big")
         s = int.from_bytes(_s, byteorder="big")
         signature = encode_dss_signature(r, s)
